@@ -1191,3 +1191,22 @@ def _selector_facts(t):
 
 evalfact('xfrm-selectors', ['C12'], _selector_facts,
          'kernel selectors installed for a CHILD_SA denote exactly its negotiated traffic selectors (bounded)')
+
+
+def _policy_facts(t):
+    """C15: start-up flush and policy installation, and what the controller reads from a kernel ACQUIRE.  Same driver
+    as xfrm-requests; only the items about policies, flushing and ACQUIRE parsing are reported here (bounded)"""
+    wanted = ('bounded-create-policies', 'bounded-create-policy', 'bounded-flush', 'bounded-parse-acquire')
+    seen = set()
+    for name, ok, detail, *rest in _request_facts(t):
+        if name in wanted:
+            seen.add(name)
+            yield (name, ok, detail, 'bounded')
+    for name in wanted:
+        if name not in seen:
+            yield (name, False, 'the driver produced no case of this kind', 'bounded')
+
+
+evalfact('xfrm-policies', ['C15'], _policy_facts,
+         'one outbound (index << 3 | OUT), one inbound and one forward policy per protect entry with the configured '
+         'selectors, protocol, mode and endpoints; flush requests; fields read from a kernel ACQUIRE (bounded)')
